@@ -150,12 +150,91 @@ theorem query_frame (dir : List Str) (sel : Option Str) (segs : List Seg) (abs :
     simp [hm] at h; subst h
     exact ⟨rfl, mapOpt_length _ _ _ hm⟩
 
+/-! ### composition, independence, shape of the result (added later) -/
+
+/-- normalisation is compositional: normalising `a ++ b` is normalising `a`, then continuing with `b` -/
+theorem normGo_append (acc a b : List Str) :
+    normGo acc (a ++ b) = (normGo acc a).bind (fun r => normGo r b) := by
+  induction a generalizing acc with
+  | nil => simp [normGo]
+  | cons x a ih =>
+    simp only [List.cons_append, normGo]
+    split
+    · exact ih _
+    · split
+      · split
+        · rfl
+        · exact ih _
+      · exact ih _
+
+/-- the resolved path never contains `.` or `..` (so it can be used as a store key as it is) -/
+theorem toAbsolute_result_plain (dir p r : List Str) (hd : plainPath dir = true) (h : toAbs dir p = some r) :
+    plainPath r = true := by
+  rw [toAbsolute_eq_posix dir p hd] at h
+  split at h
+  · exact normGo_plain [] _ r (by simp [plainPath]) h
+  · exact normGo_plain [] _ r (by simp [plainPath]) h
+
+/-- a path that does not start with `.` / `..` resolves the same from every directory -/
+theorem toAbsolute_ignores_dir (dir dir' p : List Str) (hd : plainPath dir = true) (hd' : plainPath dir' = true)
+    (hp : startsRelative p = false) : toAbs dir p = toAbs dir' p := by
+  rw [toAbsolute_eq_posix dir p hd, toAbsolute_eq_posix dir' p hd']
+  simp [hp]
+
+/-- **Two resolutions compose like `cd`**: resolving the relative path `q` from `dir0` and then the
+relative path `p` from the result is resolving against the concatenated path `dir0 ++ q ++ p` at once;
+if the first resolution is rejected, so is the combined one. -/
+theorem toAbsolute_compose (dir0 q p : List Str) (hd : plainPath dir0 = true)
+    (hq : startsRelative q = true) (hp : startsRelative p = true) :
+    posixNorm (dir0 ++ (q ++ p)) = (toAbs dir0 q).bind (fun d => toAbs d p) := by
+  rw [toAbsolute_eq_posix dir0 q hd]
+  simp only [hq, if_true]
+  unfold posixNorm
+  rw [← List.append_assoc, normGo_append [] (dir0 ++ q) p]
+  cases hn : normGo [] (dir0 ++ q) with
+  | none => rfl
+  | some d =>
+    have hpl : plainPath d = true := normGo_plain [] _ d (by simp [plainPath]) hn
+    simp only [Option.bind_some]
+    rw [toAbsolute_eq_posix d p hpl]
+    simp only [hp, if_true]
+    unfold posixNorm
+    rw [normGo_append_plain [] d p hpl]
+    simp
+
+/-- the result is never longer than directory plus path -/
+theorem normGo_length (acc p r : List Str) (h : normGo acc p = some r) : r.length ≤ acc.length + p.length := by
+  induction p generalizing acc with
+  | nil => simp [normGo] at h; subst h; simp
+  | cons x p ih =>
+    simp only [normGo] at h
+    split at h
+    · have := ih _ h; simp; omega
+    · split at h
+      · split at h
+        · cases h
+        · have := ih _ h; simp at this ⊢; omega
+      · have := ih _ h; simp at this ⊢; omega
+
+theorem toAbsolute_length (dir p r : List Str) (hd : plainPath dir = true) (h : toAbs dir p = some r) :
+    r.length ≤ dir.length + p.length := by
+  rw [toAbsolute_eq_posix dir p hd] at h
+  split at h
+  · have := normGo_length [] _ r h; simp at this; omega
+  · have := normGo_length [] _ r h; simp at this; omega
+
 /-! non-vacuity / concrete behaviour -/
 example : toAbs [['d']] [['a'], dotdot, dot, ['b']] = some [['b']] := by decide
 example : toAbs [['d']] [dot, dotdot, dotdot] = none := by decide
 example : toAbs [['x'], ['y']] [dot, dotdot, ['c']] = some [['x'], ['c']] := by decide
 example : plainPath [['x'], ['y']] = true := by decide
+-- the hypotheses of `toAbsolute_compose` are satisfiable, and both sides are a non-trivial path
+example : startsRelative [dotdot, ['c']] = true ∧ startsRelative [dot, ['e'], dotdot, ['f']] = true := by decide
+example : (toAbs [['x'], ['y']] [dotdot, ['c']]).bind (fun d => toAbs d [dot, ['e'], dotdot, ['f']])
+    = some [['x'], ['c'], ['f']] := by decide
+example : (toAbs [['x']] [dotdot, dotdot]).bind (fun d => toAbs d [dot, ['e']]) = none := by decide
+example : startsRelative [['a'], dotdot, ['b']] = false := by decide
 
 end Liquer.C19
 
--- OBLIGATIONS: Liquer.C19.toAbsolute_eq_posix Liquer.C19.toAbsolute_idem Liquer.C19.toAbsolute_rejects_iff Liquer.C19.seg_frame_transform Liquer.C19.seg_frame_other_name Liquer.C19.seg_selected Liquer.C19.query_frame
+-- OBLIGATIONS: Liquer.C19.toAbsolute_eq_posix Liquer.C19.toAbsolute_idem Liquer.C19.toAbsolute_rejects_iff Liquer.C19.seg_frame_transform Liquer.C19.seg_frame_other_name Liquer.C19.seg_selected Liquer.C19.query_frame Liquer.C19.toAbsolute_result_plain Liquer.C19.toAbsolute_ignores_dir Liquer.C19.toAbsolute_compose Liquer.C19.toAbsolute_length
